@@ -4,10 +4,24 @@ import (
 	"bufio"
 	"encoding/json"
 	"fmt"
+	"math/rand"
+	"runtime"
 	"strconv"
 
 	"go.pennock.tech/tabular"
+	"go.pennock.tech/tabular/texttable"
+	"go.pennock.tech/tabular/texttable/decoration"
 )
+
+// registrySnapshot: the built-in decoration names and what they denote in this
+// process at this moment (logged input of the scenario: the registry is global).
+func registrySnapshot() []interface{} {
+	out := []interface{}{}
+	for _, n := range []string{"ascii-simple", "none", "utf8-light", "utf8-light-curved", "utf8-heavy", "utf8-double"} {
+		out = append(out, []interface{}{n, decorObs(decoration.Named(n))})
+	}
+	return out
+}
 
 // world holds the objects of one scenario. Ids are 1-based and allotted in
 // creation order per kind, exactly as the specification allots them.
@@ -33,6 +47,14 @@ type world struct {
 	history  []M               // ops executed so far (for the reference rebuild of C10)
 	version  int               // bumped by every op that is not a render (C14 key)
 	facets   map[string]bool
+
+	// conc mode (C16)
+	recordRaw   bool
+	rawOutputs  []string
+	soloOutputs []string
+	nrender     int
+	soloEqual   []bool
+	jitter      *rand.Rand
 }
 
 func newWorld() *world {
@@ -147,9 +169,12 @@ func opMap(op M, k string) M {
 type driverPanic struct{ v interface{} }
 
 func runScenario(out *bufio.Writer, id string, ops []M, facets map[string]bool, every bool, sub *substitution) {
-	w := newWorld()
+	runScenarioIn(newWorld(), out, id, ops, facets, every, sub)
+}
+
+func runScenarioIn(w *world, out *bufio.Writer, id string, ops []M, facets map[string]bool, every bool, sub *substitution) {
 	w.facets = facets
-	writeLine(out, M{"op": M{"op": "reset", "id": id}})
+	writeLine(out, M{"op": M{"op": "reset", "id": id, "reg": registrySnapshot(), "defdec": decorOfWrapper(texttable.New())}})
 	for i, op := range ops {
 		if sub != nil {
 			sub.applyOp(op)
@@ -169,6 +194,9 @@ func runScenario(out *bufio.Writer, id string, ops []M, facets map[string]bool, 
 			w.lastRes = nil
 			w.cblog = nil
 			w.cbraw = nil
+			if w.jitter != nil && w.jitter.Intn(3) == 0 {
+				runtime.Gosched()
+			}
 			if o := opStr(op, "op"); o != "render" && o != "renderall" && o != "faultsweep" {
 				w.version++
 			}
